@@ -312,11 +312,18 @@ def check_vote_weights(p, report):
         ok = False
         why = "no subscript store into the weights before the count"
         if last_sub:
-            last = last_sub[-1]
+            # the zeroing store at the missing-label mask may be followed by further zeroing stores
+            # (`w[np.isnan(w)] = 0`): the last store that uses the mask counts, provided every later
+            # store into the weights is a zeroing store too
+            def _zero(s_):
+                return isinstance(s_.value, ast.Constant) and s_.value.value == 0
+            masked = [s_ for s_ in last_sub if _zero(s_) and (index_names(s_.targets[0]) & mask_names)]
+            last = masked[-1] if masked else last_sub[-1]
             # no whole rebinding after it that could undo it (reshape of itself is fine)
             later = [s for s in stores if s.lineno > last.lineno and isinstance(s.targets[0], ast.Name)]
             undone = [s for s in later if w not in names_in(s.value)]
-            zero = isinstance(last.value, ast.Constant) and last.value.value == 0
+            undone += [s_ for s_ in last_sub if s_.lineno > last.lineno and not _zero(s_)]
+            zero = _zero(last)
             uses_mask = bool(index_names(last.targets[0]) & mask_names)
             ok = zero and uses_mask and not undone
             why = f"last dominating store `{norm_stmt(last, 80)}`" + ("" if ok else
